@@ -41,9 +41,12 @@ CLAIMED["C15"] = dict(
          "restored: exactly for jsoncons::json under its representation invariant (apply_atomic_sorted), up to member order for ojson with unique "
          "keys (apply_atomic_ordered; exact equality is false there - kernel-checked witness - because the undo of remove re-appends the member), "
          "exactly for both whenever the patch has no remove/move (apply_atomic_no_removal); every operation, failed or not, is inverted by the undo "
-         "entries it logs (undo_inverts_op); malformed/unknown operations are rejected, test is pure. RFC 6902 conformance and the diff law are "
+         "entries it logs (undo_inverts_op); malformed/unknown operations are rejected, test is pure. RFC 6902 CONFORMANCE for jsoncons::json: a successful "
+         "model run computes exactly what the RFC 6902 reference computes and conversely (apply_refines_spec, apply_iff_spec; side condition: arrays shorter "
+         "than 2^64); the DIFF LAW applyPatch a (fromDiff a b) = b for all documents under the representation invariant (diff_law). For ojson both are "
          "decided per case by the correspondence run against the Lean RFC 6902 Spec and by the oracle on the real outputs.",
-    note="Partial: refinement to the RFC 6902 Spec and the diff law are validated by differential testing against the executable Lean Spec, not proved. "
+    note="Partial: for the insertion-ordered flavour (ojson) refinement to the Spec and the diff law hold only up to member order and are validated by "
+         "differential testing, not proved. "
          "Atomicity under allocation failure is outside the model (D66, known). Known finding D18 (ojson test is member-order sensitive) is listed.",
     technique="Lean 4 theorems (general atomicity via undo-log inversion, rejection, purity of test) + correspondence vs executable Lean RFC 6902 Spec",
     design="§5 C15, §9.2")
@@ -97,8 +100,11 @@ CLAIMED["C02"] = dict(
          "source on every run and proved equal to the RFC character classes (C02X, decide). The real parser is additionally judged on every run "
          "against the reference: bounded-exhaustive token strings, generated+mutated documents, every comment/comma placement, depth limit-1/limit/limit+1; "
          "first-duplicate-wins and number values by the decoder streams.",
-    note="Partial: exactness is proved for the configurations with allow_comments and allow_trailing_comma off; with either option on, 'relaxes exactly "
-         "that construct' is decided per case (real parser = model = reference with the matching flag on every generated input). The theorems are about "
+    note="Options: exactness is also proved with allow_trailing_comma on (parse_exact_any_trailing_comma: the flag relaxes exactly the comma before a closing "
+         "bracket); with allow_comments on, COMPLETENESS is proved (every text the comment-aware grammar derives, with no comment after the root value - the "
+         "recorded divergence D22 - is accepted with the same events: parse_complete_options), a strictly accepted text stays accepted under every option "
+         "setting with the same events (options_only_relax), and the comments flag is irrelevant for texts without '/' (options_relax_exactly_slash_free); "
+         "soundness with comments on is decided per case (real parser = model = reference with the matching flag on every generated input). The theorems are about "
          "the model; the model is tied to json_parser.hpp by the state-level correspondence on generated inputs, not by proof. wchar_t is not exercised. "
          "D80 (block comment ending in **/) was found while building the model and fixed; known finding D22 (comment after the root value) is listed.",
     technique="Lean 4 theorems: the state-machine model of json_parser.hpp accepts exactly the RFC 8259 grammar with the specified events (both directions, "
@@ -136,7 +142,7 @@ CLAIMED["C06"] = dict(
               "encoder models + round-trip oracle",
     design="§5 C06, §9.2")
 CLAIMED["C07"] = dict(
-    text="Lean 4 model of the REAL CBOR decoder (JV.Model.CborParser = cbor_parser.hpp: read_item dispatch, read_uint64 / read_int64 / read_size / read_double, definite and chunked strings with per-chunk UTF-8 validation, definite and indefinite arrays and maps, break handling, simple values, the nesting check, non-text map keys as the generic visitor renders them; tags, stringrefs and typed arrays answer skip), tied to the real decoder outcome by outcome (value or cbor_errc code) on ~60k inputs per run, and PROVED for all inputs and all depth limits to refine the RFC 8949 reference decoder (cbor_parser_model_refines_spec: equal value and rest whenever both give one; the model never accepts ill-formed input; it may additionally refuse for max_nesting_depth_exceeded / number_too_large). The real CBOR, MessagePack, UBJSON and BSON decoders are compared on every run with reference decoders written in Lean 4 from the "
+    text="Lean 4 models of the REAL CBOR and MessagePack decoders (JV.Model.MsgpackParser = msgpack_parser.hpp: all 256 type bytes, get_size, UTF-8 check, ext / fixext and the three timestamp layouts, the nesting check; tied to the real decoder on ~70k inputs per run and proved to refine the MessagePack reference for all inputs: msgpack_parser_model_refines_spec). CBOR: Lean 4 model of the REAL CBOR decoder (JV.Model.CborParser = cbor_parser.hpp: read_item dispatch, read_uint64 / read_int64 / read_size / read_double, definite and chunked strings with per-chunk UTF-8 validation, definite and indefinite arrays and maps, break handling, simple values, the nesting check, non-text map keys as the generic visitor renders them; tags, stringrefs and typed arrays answer skip), tied to the real decoder outcome by outcome (value or cbor_errc code) on ~60k inputs per run, and PROVED for all inputs and all depth limits to refine the RFC 8949 reference decoder (cbor_parser_model_refines_spec: equal value and rest whenever both give one; the model never accepts ill-formed input; it may additionally refuse for max_nesting_depth_exceeded / number_too_large). The real CBOR, MessagePack, UBJSON and BSON decoders are compared on every run with reference decoders written in Lean 4 from the "
          "specifications, on outputs of independent reference encoders in every legal width and form, mutations, every strict prefix and every 1-2 "
          "(thorough: sampled 3) byte string. Proved about the CBOR reference: integers of all five widths and both majors are read back exactly from "
          "the encoder model's head, reserved additional information 28-31 and truncated heads are ill-formed for every continuation."
@@ -166,7 +172,11 @@ CLAIMED["C10"] = dict(
          "max_items 2^24) are regenerated from the source on every run (C10X). The real decoders and encoders of all formats are checked on every run at "
          "limit-1/limit/limit+1 for every container shape, UBJSON max_items on every container form, heap use under claimed lengths 2^20..2^62 with a "
          "counting operator new through buffer/iterator/stream sources, and stack use of destroy/copy/compare/dump on values nested up to 10^5 "
-         "(thorough 10^6) deep.",
+         "(thorough 10^6) deep."
+         " For the CBOR decoder model (tied to cbor_parser.hpp): a decoded value is never nested deeper than max_nesting_depth, k nested arrays / maps / "
+         "indefinite arrays decode iff k <= limit and otherwise fail with exactly max_nesting_depth_exceeded (cbor_depth_limit_exact), the output weight plus "
+         "the unread rest never exceeds the input length (cbor_output_le_input), and a string header claiming more bytes than supplied is unexpected_eof "
+         "for every claimed length below 2^64 (cbor_claimed_length_needs_data).",
     note="Partial: real heap footprint and stack depth are runtime facts, observed by meters in a non-sanitized harness, not proved; the binary parsers' "
          "depth tests are swept, not modelled. D29 (assertion on deep dump) found and fixed.",
     technique="Lean 4 theorems (allocation ledger bound, parser-model level bound, exact depth limit) + extracted defaults (decide) + limit sweeps and "
@@ -270,7 +280,9 @@ CLAIMED["C05"] = dict(
          "TOON; JSONPath, JMESPath, JSON Pointer, URI and JSON Schema compilers and their evaluation; encoders under random option sets) is driven with mutated "
          "spec-derived inputs and hand-built hostile ones under ASan+UBSan, every exception classified, every call given a time budget."
          " Every fixed buffer of write_number.hpp and every snprintf call (target, size, format, precision, whether the length is checked before "
-         "the target is read) is regenerated from the source on every run and proved to fit or to be length-checked (C05X, tools/extract.py).",
+         "the target is read) is regenerated from the source on every run and proved to fit or to be length-checked (C05X, tools/extract.py)."
+         " Termination of the CBOR decoder model: every item read consumes at least one byte and the fuel 2*|input|+2 never runs out "
+         "(cbor_item_consumes, cbor_fuel_suffices); every outcome is a value with a strictly shorter rest or an error code (cbor_decode_outcomes).",
     note="Partial: memory safety, undefined behaviour, leaks, termination and exception types are facts about the compiled artefact; the proofs cover the logic of "
          "bounds only, the rest is sanitizer-observed on a finite set of inputs. D64 (out-of-bounds read in the JMESPath compiler) and D65 (compiler loops forever) "
          "found and fixed here; D3, D34, D39, D58, D59 found by other properties' checks are of this kind too.",
